@@ -418,10 +418,18 @@ func runC19Seq(ch *core.Chooser, env *Env, out *Outcome) *Outcome {
 		} else if !ch.More("q", pct) {
 			break
 		}
-		if i > 0 && ch.Intn("hist.repeat", 3) == 2 {
+		switch x := ch.Intn("hist.repeat", 12); {
+		case i > 0 && x >= 8:
 			hist = append(hist, hist[ch.Intn("hist.which", len(hist))])
-		} else {
-			hist = append(hist, workload.GenOpFor(ch, hosts, opKinds, allLines))
+		case x == 0:
+			// a reload while the engine stays in service
+			hist = append(hist, workload.Op{Kind: workload.OpRescan})
+		default:
+			o := workload.GenOpFor(ch, hosts, opKinds, allLines)
+			if o.Kind == workload.OpDNS && x == 1 {
+				o = workload.Op{Kind: workload.OpDNS, Host: o.Host, Short: true}
+			}
+			hist = append(hist, o)
 		}
 		ch.End()
 	}
@@ -527,6 +535,12 @@ func runC19Seq(ch *core.Chooser, env *Env, out *Outcome) *Outcome {
 		}
 	}
 	firstFault := -1
+	type keptRes struct {
+		i     int
+		res   *workload.Result
+		canon string
+	}
+	var kept []keptRes
 	ask := func(i int) bool {
 		o := &hist[i]
 		var res *workload.Result
@@ -563,6 +577,18 @@ func runC19Seq(ch *core.Chooser, env *Env, out *Outcome) *Outcome {
 			}
 		}
 		served(res, P)
+		// results handed out earlier must not change, fault or no fault
+		for _, k := range kept {
+			if now := k.res.Canon(); now != k.canon {
+				sample()
+				out.Violation = &Violation{Class: "earlier-result-changed:" + opClass(&hist[k.i]), Detail: fmt.Sprintf("after query %d %s (faulted=%t) the result returned earlier for query %d %s changed\n was: %s\n now: %s", i, o.Key(), faulted, k.i, hist[k.i].Key(), k.canon, now)}
+				return false
+			}
+		}
+		kept = append(kept, keptRes{i, res, res.Canon()})
+		if len(kept) > 8 {
+			kept = kept[1:]
+		}
 		return true
 	}
 	for i := range hist {
